@@ -43,7 +43,7 @@ def generate(r):
             kinds += ["callc", "callc"]
         if lets:
             kinds += ["assign"]
-        kinds += ["ghost", "latefiber", "defthenraise", "relay"]
+        kinds += ["ghost", "latefiber", "defthenraise", "relay", "brokenrun"]
         if lets:
             kinds += ["setter"]
         if setters:
@@ -187,6 +187,30 @@ def generate(r):
                     queued.append([form % (i, step, i, step, i, i, 20 + step, i, step), True])
                 else:
                     queued.append([form % (i, step, i, 30 + step, i, step, i, i, step), True])
+        elif k == "brokenrun" and not any("brk" in e[0] for e in queued):
+            # two or three imports in a row of modules that do not compile (different ones, or the same one again), then a
+            # module that does compile is imported and called into: what the failed compilations left behind (module ids,
+            # cache slots) must not shift what the good module gets
+            count = r.randint(2, 3)
+            names = []
+            for j in range(count):
+                if names and r.random() < 0.3:
+                    names.append(r.choice(names))
+                else:
+                    name = "brk%d_%d" % (i, j)
+                    files["/sim/%s.lay" % name] = r.choice(["export fn oops( { 1 }\n", "export let a = ;\n", "class K { init( { } }\nexport let k = K;\n"])
+                    names.append(name)
+            steps = [["import self.%s; print('unreachable');" % name, False] for name in names]
+            good = "brkgood%d" % i
+            files["/sim/%s.lay" % good] = ("class K { init(v) { self.v = v; self.w = v + 1; } twice() { self.v * 2 } plus() { self.w + self.v } }\n"
+                                           "export fn use(v) { let k = K(v); k.twice() + k.v + k.plus() }\n"
+                                           "export let tag = '%s';\n" % good)
+            steps.append(["import self.%s;" % good, True])
+            steps.append(["print('mod', %s.use(%d), %s.tag);" % (good, r.randint(1, 9), good), True])
+            if r.random() < 0.5:
+                steps.append(["print('mod', %s.use(%d), %s.tag);" % (good, r.randint(1, 9), good), True])
+            entries.append(steps[0])
+            queued.extend(steps[1:])
         elif k == "latefiber":
             # a fiber launched by one entry and not run yet when the entry ends; a later entry communicates with it
             entries.append(["fn lw%d(ch, n) { for j in n.times() { ch <- j * %d; } } let lch%d = chan(2); launch lw%d(lch%d, 2);" % (
